@@ -73,6 +73,7 @@ def opOf : C02.Instr → Op × Opnd
   | .withCleanup => (.WITH_CLEANUP, .none)
   | .breakLoop => (.BREAK_LOOP, .none)
   | .continueLoop t => (.CONTINUE_LOOP, .abs t)
+  | .yieldValue => (.YIELD_VALUE, .none)   -- C02 round ext2: generator frames (outside the fragment of compile_wellformed_partial)
   | .getIter => (.GET_ITER, .none)
   | .forIter t => (.FOR_ITER, .rel t)
   | .storeFast v => (.STORE_FAST, .imm (varIdx v))
@@ -138,7 +139,7 @@ def handlerNeed (m : C02.Matcher) (n : Nat) : Nat := 6 + max (2 + m.classes.leng
 
 def need : C02.Stmt → Nat
   | .skip | .pass _ | .brk _ | .cont _ | .reraise _ => 0
-  | .ev _ _ | .ret _ _ => 2
+  | .ev _ _ | .ret _ _ | .yieldS _ _ => 2
   | .raise _ _ => 1
   | .raiseX _ (.inst _ _) => 2
   | .raiseX _ (.from _ _) => 2
@@ -174,6 +175,7 @@ def loopOnly : C02.Stmt → Bool
   | .tryF _ _ _ => false
   | .tryE _ _ _ _ _ _ _ => false
   | .withS _ _ _ => false
+  | .yieldS _ _ => false
 
 /-- the jump targets (instruction indices) an index-level instruction mentions -/
 def tgtsOf (i : C02.Instr) : List Nat :=
